@@ -90,8 +90,9 @@ def statuses_of(state: dict[str, Any]) -> dict[str, Any]:
 
 
 def comparable_part(state: dict[str, Any]) -> dict[str, Any]:
-    """What a snapshot restores by design (workflow start/end timestamps are not part of it)."""
-    return {k: state.get(k) for k in ("status", "application", "name", "context", "stages", "tasks")}
+    """Everything a rebuilt state reports: statuses and data, the workflow's own start / end timestamps included (they are part
+    of the snapshotted state dict)."""
+    return {k: state.get(k) for k in ("status", "application", "name", "context", "stages", "tasks", "start_time", "end_time")}
 
 
 def judge(c: Campaign, spec: dict[str, Any], run: Run, desc: Any, extra=()) -> None:
